@@ -19,6 +19,10 @@ structure XS where
   xb : List Int := [0, 0, 0]
   xt : List Int := [0, 0, 0, 0]
   rx : List Int := [0, 0, 0]
+  /-- `xb` buckets a SELFDESTRUCT of the block being executed has destroyed: the state object lingers (with its code) until the
+  end of the block, where it is deleted with whatever it then holds (app/state_processor.go Process: no Finalise between the
+  transactions of a block; state/statedb.go Finalise deletes suicided objects) -/
+  killed : List Nat := []
 deriving Repr, Inhabited
 
 inductive Bk where
@@ -32,6 +36,8 @@ inductive Prim where
   | move (tok : Bool) (src dst : Bk) (amt : Option Int)
   /-- the native holdings of the bucket are destroyed -/
   | burn (b : Bk)
+  /-- the bucket's contract executed SELFDESTRUCT: it is deleted at the end of the block -/
+  | kill (b : Bk)
 deriving Repr, Inhabited
 
 def getBk (s : St) (x : XS) (tok : Bool) : Bk → Int
@@ -60,8 +66,21 @@ def applyPrim (sx : St × XS) : Prim → St × XS
     match b with
     | .x k => (r.1, { r.2 with rx := addAt r.2.rx k v })
     | _ => r
+  | .kill b =>
+    match b with
+    | .x k => (sx.1, { sx.2 with killed := sx.2.killed ++ [k] })
+    | _ => sx
 
 def applyPrims (sx : St × XS) (ps : List Prim) : St × XS := ps.foldl applyPrim sx
+
+/-- end of the block: every object destroyed in it is deleted with what it holds by then — what a LATER transaction of the same
+block paid it is gone (the code as it is: known finding pay-selfdestructed-same-block); the balance records keep the credit (`rx`) -/
+def endBlock (sx : St × XS) : St × XS :=
+  let r := sx.2.killed.foldl (fun acc k => applyPrim acc (.burn (.x k))) sx
+  (r.1, { r.2 with killed := [] })
+
+/-- a committed block: the movements of its successful contract transactions in order, then the end of the block -/
+def applyBlock (sx : St × XS) (txs : List (List Prim)) : St × XS := endBlock (txs.foldl applyPrims sx)
 
 /-- total native / token value over everything observed -/
 def nativeTotal (s : St) (x : XS) : Int := supply s + x.xb.sum
